@@ -132,3 +132,13 @@ class SNM(TextualDataType):
     """
     def __init__(self, value, highlights=None, validation_level=None):
         super(SNM, self).__init__(value, None, highlights, validation_level)
+
+
+class WD(TextualDataType):
+    """
+    Datatype class for withdrawn fields (see :class:`hl7apy.base_datatypes.WD`) with the escaping rules of HL7 v2.7+
+    (truncation character and ``\\L\\`` sequence)
+    """
+    def __init__(self, value, highlights=None,
+                 validation_level=None):
+        super(WD, self).__init__(value, 199, highlights, validation_level)
